@@ -28,6 +28,15 @@ import (
 // "wait" ends.
 // ---------------------------------------------------------------------------
 
+// c18ChanLock is a sync.Locker whose waiters block on a channel, i.e. durably
+// in synctest's sense: a lock that syncx.Guard fails to release (for instance
+// after a panicking section) shows up as a synctest deadlock instead of
+// wedging the bubble the way a leaked sync.Mutex would.
+type c18ChanLock chan struct{}
+
+func (l c18ChanLock) Lock()   { l <- struct{}{} }
+func (l c18ChanLock) Unlock() { <-l }
+
 func c18SmallInterp(t *testing.T, c c18Case) kit.Verdict {
 	v := c18NewV()
 	c18CaseClasses(v, c)
@@ -42,9 +51,9 @@ func c18SmallInterp(t *testing.T, c c18Case) kit.Verdict {
 		}
 	}
 	horizon += 2
-	var overlapB, overlapS atomic.Int32
-	plainB, plainS := 0, 0 // deliberately unsynchronised: protected by the primitive under test
-	sectionsB, sectionsS := 0, 0
+	var overlapB, overlapS, overlapG atomic.Int32
+	plainB, plainS, plainG := 0, 0, 0 // deliberately unsynchronised: protected by the primitive under test
+	sectionsB, sectionsS, sectionsG := 0, 0, 0
 	var chanChanged atomic.Int32
 	log, res := c18Play(t, c, func(clk *c18Clock, log *c18Log) (func(g, i int, op c18Op), func()) {
 		var bar syncx.Barrier
@@ -52,7 +61,8 @@ func c18SmallInterp(t *testing.T, c c18Case) kit.Verdict {
 		var og syncx.OnceGuard
 		dc := syncx.NewDoneChan()
 		ch0 := dc.Done()
-		var inB, inS atomic.Int32
+		var inB, inS, inG atomic.Int32
+		chanLock := make(c18ChanLock, 1)
 		helperDone := make(chan struct{})
 		go func() {
 			c18Sleep(horizon)
@@ -83,9 +93,41 @@ func c18SmallInterp(t *testing.T, c c18Case) kit.Verdict {
 				case "guard":
 					var st, en c18Stamp
 					ev.Inv = clk.now()
-					bar.Guard(func() { st, en = section(&inB, &overlapB, &plainB, op.A) })
+					// Guard unlocks in a defer: a section that panics (Key=1,
+					// recovered here by the caller) must not keep the barrier shut
+					pan, foreign := c18Try(func() {
+						bar.Guard(func() {
+							st, en = section(&inB, &overlapB, &plainB, op.A)
+							log.exec(c18Exec{Key: 0, G: g, I: i, Start: st, End: en, Pan: op.Key == 1})
+							if op.Key == 1 {
+								panic(c18Panic{"barrier section"})
+							}
+						})
+					})
 					ev.Ret = clk.now()
-					log.exec(c18Exec{Key: 0, G: g, I: i, Start: st, End: en})
+					ev.Pan = pan
+					if foreign != nil || pan != (op.Key == 1) {
+						ev.Foreign = fmt.Sprint("unexpected panic state: ", pan, " ", foreign)
+					}
+				case "guardfn":
+					// the package-level Guard (which Barrier.Guard delegates to) with
+					// a channel-based Locker
+					var st, en c18Stamp
+					ev.Inv = clk.now()
+					pan, foreign := c18Try(func() {
+						syncx.Guard(chanLock, func() {
+							st, en = section(&inG, &overlapG, &plainG, op.A)
+							log.exec(c18Exec{Key: 2, G: g, I: i, Start: st, End: en, Pan: op.Key == 1})
+							if op.Key == 1 {
+								panic(c18Panic{"guarded section"})
+							}
+						})
+					})
+					ev.Ret = clk.now()
+					ev.Pan = pan
+					if foreign != nil || pan != (op.Key == 1) {
+						ev.Foreign = fmt.Sprint("unexpected panic state: ", pan, " ", foreign)
+					}
 				case "lock":
 					ev.Inv = clk.now()
 					spin.Lock()
@@ -115,6 +157,12 @@ func c18SmallInterp(t *testing.T, c c18Case) kit.Verdict {
 					ev.Inv = clk.now()
 					ev.OK = og.Take()
 					ev.Ret = clk.now()
+					if ev.OK && op.Key == 1 {
+						// the once-guarded section of the winner panics (recovered by
+						// its caller): the guard stays taken, nobody else may enter
+						ev.Pan = true
+						c18Try(func() { panic(c18Panic{"once-guarded section"}) })
+					}
 				case "taken":
 					ev.Inv = clk.now()
 					ev.OK = og.Taken()
@@ -145,19 +193,36 @@ func c18SmallInterp(t *testing.T, c c18Case) kit.Verdict {
 			}
 	})
 
+	for _, ev := range log.evs {
+		if ev.Foreign != "" {
+			v.failf("%s g%d#%d: %s", ev.Sub, ev.G, ev.I, ev.Foreign)
+		}
+		if ev.Pan && (ev.Sub == "guard" || ev.Sub == "guardfn") {
+			v.class("guarded-section-panicked")
+		}
+		if ev.Pan && ev.Sub == "take" {
+			v.class("once-guarded-section-panicked")
+		}
+	}
 	// ---- mutual exclusion (Barrier key 0, SpinLock key 1)
 	if overlapB.Load() != 0 {
 		v.failf("barrier: two guarded sections were inside at the same time (overlap counter)")
+	}
+	if overlapG.Load() != 0 {
+		v.failf("guard: two sections guarded by one Locker were inside at the same time (overlap counter)")
 	}
 	if overlapS.Load() != 0 {
 		v.failf("spin-lock: two locked sections were inside at the same time (overlap counter)")
 	}
 	for i := 0; i < len(log.execs); i++ {
 		a := log.execs[i]
-		if a.Key == 0 {
+		switch a.Key {
+		case 0:
 			sectionsB++
-		} else {
+		case 1:
 			sectionsS++
+		default:
+			sectionsG++
 		}
 		for j := i + 1; j < len(log.execs); j++ {
 			b := log.execs[j]
@@ -165,17 +230,20 @@ func c18SmallInterp(t *testing.T, c c18Case) kit.Verdict {
 				continue
 			}
 			if !(a.End.S < b.Start.S || b.End.S < a.Start.S) {
-				v.failf("%s: sections of g%d#%d and g%d#%d overlap (stamps %d..%d, %d..%d)", []string{"barrier", "spin-lock"}[a.Key], a.G, a.I, b.G, b.I, a.Start.S, a.End.S, b.Start.S, b.End.S)
+				v.failf("%s: sections of g%d#%d and g%d#%d overlap (stamps %d..%d, %d..%d)", []string{"barrier", "spin-lock", "guard"}[a.Key], a.G, a.I, b.G, b.I, a.Start.S, a.End.S, b.Start.S, b.End.S)
 			}
 			if a.G != b.G && a.Start.T == b.Start.T {
 				v.nt = true
-				v.class([]string{"barrier", "spin-lock"}[a.Key] + "-contended-instant")
+				v.class([]string{"barrier", "spin-lock", "guard"}[a.Key] + "-contended-instant")
 			}
 		}
 	}
 	if res.OK() {
 		if plainB != sectionsB {
 			v.failf("barrier: %d guarded increments of a plain counter produced %d (lost update)", sectionsB, plainB)
+		}
+		if plainG != sectionsG {
+			v.failf("guard: %d guarded increments of a plain counter produced %d (lost update)", sectionsG, plainG)
 		}
 		if plainS != sectionsS {
 			v.failf("spin-lock: %d locked increments of a plain counter produced %d (lost update)", sectionsS, plainS)
@@ -344,7 +412,7 @@ func c18SmallInterp(t *testing.T, c c18Case) kit.Verdict {
 func c18SmallGen(rt *rapid.T) c18Case {
 	// each case concentrates on one or two primitives so that contention is dense
 	groups := [][]string{
-		{"guard"},
+		{"guard", "guardfn"},
 		{"lock", "lock", "trylock"},
 		{"take", "take", "taken"},
 		{"close", "wait", "wait", "poll", "poll"},
@@ -357,8 +425,11 @@ func c18SmallGen(rt *rapid.T) c18Case {
 	}
 	return c18Case{Gs: c18GenGs(rt, 5, func(rt *rapid.T, burst bool) c18Op {
 		op := c18Op{K: rapid.SampledFrom(kinds).Draw(rt, "k")}
-		if op.K == "guard" || op.K == "lock" || op.K == "trylock" {
+		if op.K == "guard" || op.K == "guardfn" || op.K == "lock" || op.K == "trylock" {
 			op.A = rapid.IntRange(0, 3).Draw(rt, "yields")
+		}
+		if (op.K == "guard" || op.K == "guardfn" || op.K == "take") && rapid.IntRange(0, 3).Draw(rt, "sectionPanics") == 0 {
+			op.Key = 1
 		}
 		return op
 	})}
